@@ -60,6 +60,9 @@ struct Cfg {
     drops: u32,
     /// node 1 owns no tokens (coordinator-only); requests are spread over ALL known nodes by a custom policy
     zero_token: bool,
+    /// node 1 is a 2-shard node WITHOUT shard-aware port whose plain port hands out shard 0 only: the per-shard pool never
+    /// fills, the second connection becomes an EXCESS connection (open, handshaken, outside the pool)
+    excess: bool,
     max_steps: usize,
 }
 impl Cfg {
@@ -106,7 +109,7 @@ impl Cfg {
         ["add", "up", "enable", "rerack"][self.topo as usize]
     }
     fn json(&self) -> Value {
-        json!({"pool": self.pool, "calls": self.calls, "sharded": self.sharded, "variant": self.variant, "topo": self.topo, "kills": self.kills, "adds": self.adds, "naks": self.naks, "drops": self.drops, "zero_token": self.zero_token, "max_steps": self.max_steps})
+        json!({"pool": self.pool, "calls": self.calls, "sharded": self.sharded, "variant": self.variant, "topo": self.topo, "kills": self.kills, "adds": self.adds, "naks": self.naks, "drops": self.drops, "zero_token": self.zero_token, "excess": self.excess, "max_steps": self.max_steps})
     }
     fn from_json(v: &Value) -> Cfg {
         Cfg {
@@ -120,6 +123,7 @@ impl Cfg {
             naks: v["naks"].as_u64().unwrap_or(0) as u32,
             drops: v["drops"].as_u64().unwrap_or(0) as u32,
             zero_token: v["zero_token"].as_bool().unwrap_or(false),
+            excess: v["excess"].as_bool().unwrap_or(false),
             max_steps: v["max_steps"].as_u64().unwrap_or(14) as usize,
         }
     }
@@ -147,6 +151,8 @@ struct MConn {
     hs_expected: bool,
     /// the USE of call k on this connection will never be answered
     dropped: Option<usize>,
+    /// set up completely but kept outside the pool by the driver (its shard is already covered)
+    excess: bool,
 }
 impl MConn {
     fn name(&self) -> String {
@@ -227,7 +233,16 @@ impl World {
     async fn setup(cfg: Cfg) -> Result<World, Fail> {
         let mut b = MockCluster::builder().node(NodeSpec::new("dc1", "r1", vec![-4_000_000_000_000_000_000, 2_000_000_000_000_000_000]));
         let n1 = NodeSpec::new("dc1", "r2", if cfg.zero_token { vec![] } else { vec![-1_000_000_000_000_000_000, 5_000_000_000_000_000_000] });
-        b = b.node(if cfg.sharded { n1.scylla(2, 12) } else { n1 });
+        b = b.node(if cfg.excess {
+            let mut n = n1.scylla(2, 12);
+            n.shard_aware_port = false;
+            n.plain_port_shard = mockcluster::PlainPortShard::Fixed(0);
+            n
+        } else if cfg.sharded {
+            n1.scylla(2, 12)
+        } else {
+            n1
+        });
         for k in ["ks_one", "ks_two", "MyKs", "myks"] {
             b = b.keyspace(KeyspaceSpec::simple(k, 1));
         }
@@ -235,6 +250,21 @@ impl World {
         cluster.script(Script::new(STMT_PREFIX).prefix().reply(|ctx| {
             if ctx.keyspace.is_none() { Reply::error(mockcluster::wire::ErrorBody::invalid("No keyspace has been specified. USE a keyspace, or explicitly specify keyspace.tablename")) } else { Reply::void() }
         }));
+        if cfg.excess {
+            // the pool of node 1 never fills, so it keeps opening connections: every one after the first is parked at STARTUP
+            // from the very beginning
+            let first: Mutex<Option<u64>> = Mutex::new(None);
+            cluster.hold(move |a| {
+                if a.node != 1 || !a.is_startup_response() {
+                    return false;
+                }
+                let mut g = first.lock().unwrap();
+                if g.is_none() {
+                    *g = Some(a.conn);
+                }
+                *g != Some(a.conn)
+            });
+        }
         let filter_open = Arc::new(std::sync::atomic::AtomicBool::new(cfg.topo != 2));
         let sb = SessionBuilder::new()
             .known_node(cluster.contact_point(0))
@@ -249,7 +279,7 @@ impl World {
             sb
         };
         let session = Arc::new(sb.build().await.map_err(|e| stuck(format!("session did not come up: {e}")))?);
-        let targets = vec![cfg.pool, if cfg.sharded { 2 * cfg.pool } else { cfg.pool }, cfg.pool];
+        let targets = vec![cfg.pool, if cfg.sharded && !cfg.excess { 2 * cfg.pool } else { cfg.pool }, cfg.pool];
         let known = vec![true, cfg.topo != 2, false];
         for (n, want) in targets.iter().enumerate().take(2) {
             if !known[n] {
@@ -278,7 +308,7 @@ impl World {
         infos.sort_by_key(|c| (c.node, c.id));
         for c in infos.iter().filter(|c| c.ready && c.registered.is_empty()) {
             let o = ords.entry(c.node).or_insert(0);
-            conns.push(MConn { id: c.id, node: c.node, ord: *o, alive: true, hs_parked: None, use_parked: None, pooled: true, needs_sync: true, last_use_seen: None, acked: None, nak: None, retiring: false, accept_parked: None, hs_expected: false, dropped: None });
+            conns.push(MConn { id: c.id, node: c.node, ord: *o, alive: true, hs_parked: None, use_parked: None, pooled: true, needs_sync: true, last_use_seen: None, acked: None, nak: None, retiring: false, accept_parked: None, hs_expected: false, dropped: None, excess: false });
             *o += 1;
         }
         let mut w = World {
@@ -403,6 +433,18 @@ impl World {
         Ok(())
     }
 
+    /// A new connection has passed the keyspace check: it enters the pool - or, on the node that hands out shard 0 only,
+    /// becomes an excess connection when shard 0 is covered already.
+    fn finish_setup(&mut self, i: usize) {
+        let node = self.conns[i].node;
+        if self.cfg.excess && node == 1 && self.conns.iter().any(|c| c.node == 1 && c.alive && c.pooled) {
+            self.conns[i].excess = true;
+        } else {
+            self.conns[i].pooled = true;
+            self.conns[i].needs_sync = true;
+        }
+    }
+
     async fn expect_new_conn(&mut self, node: usize) -> Result<(), Fail> {
         let known: HashSet<u64> = self.conns.iter().map(|c| c.id).collect();
         if node == 1 && self.down.load(Ordering::SeqCst) {
@@ -412,7 +454,7 @@ impl World {
                 .await
                 .map_err(stuck)?;
             let ord = self.conns.iter().filter(|c| c.node == node).count();
-            self.conns.push(MConn { id: a.conn, node, ord, alive: true, hs_parked: None, use_parked: None, pooled: false, needs_sync: false, last_use_seen: None, acked: None, nak: None, retiring: false, accept_parked: Some(a.id), hs_expected: false, dropped: None });
+            self.conns.push(MConn { id: a.conn, node, ord, alive: true, hs_parked: None, use_parked: None, pooled: false, needs_sync: false, last_use_seen: None, acked: None, nak: None, retiring: false, accept_parked: Some(a.id), hs_expected: false, dropped: None, excess: false });
             return Ok(());
         }
         let a = self
@@ -421,7 +463,7 @@ impl World {
             .await
             .map_err(stuck)?;
         let ord = self.conns.iter().filter(|c| c.node == node).count();
-        self.conns.push(MConn { id: a.conn, node, ord, alive: true, hs_parked: Some(a.id), use_parked: None, pooled: false, needs_sync: false, last_use_seen: None, acked: None, nak: None, retiring: false, accept_parked: None, hs_expected: false, dropped: None });
+        self.conns.push(MConn { id: a.conn, node, ord, alive: true, hs_parked: Some(a.id), use_parked: None, pooled: false, needs_sync: false, last_use_seen: None, acked: None, nak: None, retiring: false, accept_parked: None, hs_expected: false, dropped: None, excess: false });
         Ok(())
     }
 
@@ -476,7 +518,7 @@ impl World {
             }
             for i in 0..self.conns.len() {
                 let c = self.conns[i].clone();
-                if !c.alive || c.retiring || c.hs_parked.is_some() || c.use_parked.is_some() || c.accept_parked.is_some() {
+                if !c.alive || c.excess || c.retiring || c.hs_parked.is_some() || c.use_parked.is_some() || c.accept_parked.is_some() {
                     continue;
                 }
                 if c.hs_expected {
@@ -508,8 +550,7 @@ impl World {
                         }
                         Some(_) => {}
                         None => {
-                            self.conns[i].pooled = true;
-                            self.conns[i].needs_sync = true;
+                            self.finish_setup(i);
                             progressed = true;
                         }
                     }
@@ -519,9 +560,10 @@ impl World {
                 if !self.known[n] || !self.listening[n] {
                     continue;
                 }
-                let opening = self.conns.iter().filter(|c| c.node == n && c.alive && !c.retiring && !c.pooled).count();
+                let opening = self.conns.iter().filter(|c| c.node == n && c.alive && !c.retiring && !c.pooled && !c.excess).count();
                 let pooled = self.conns.iter().filter(|c| c.node == n && c.alive && !c.retiring && c.pooled).count();
-                if opening == 0 && pooled < self.targets[n] {
+                // (the pool that only ever gets shard 0 is never full: it keeps opening connections)
+                if opening == 0 && (pooled < self.targets[n] || (self.cfg.excess && n == 1)) {
                     self.expect_new_conn(n).await?;
                     progressed = true;
                 }
@@ -556,7 +598,7 @@ impl World {
     fn state_string(&self) -> String {
         let mut s = format!("raw={}{} pend={:?} cur={:?} infl={:?} started={} k={} a={} n={};", self.raw_wait.is_some() as u8, self.raw_parked.is_some() as u8, self.pending.as_ref().map(|x| x.0), self.current, self.inflight.as_ref().map(|x| x.0), self.started, self.kills_left, self.adds_left, self.naks_left);
         for c in &self.conns {
-            s.push_str(&format!("{}:{}{}{}{}{}{:?}{:?}{:?}{:?};", c.name(), c.accept_parked.is_some() as u8, c.retiring as u8, c.alive as u8, c.hs_parked.is_some() as u8, c.pooled as u8, c.use_parked.map(|u| u.1), c.acked, c.nak, c.dropped));
+            s.push_str(&format!("{}:{}{}{}{}{}{:?}{:?}{:?}{:?}x{};", c.name(), c.accept_parked.is_some() as u8, c.retiring as u8, c.alive as u8, c.hs_parked.is_some() as u8, c.pooled as u8, c.use_parked.map(|u| u.1), c.acked, c.nak, c.dropped, c.excess as u8));
         }
         s
     }
@@ -577,7 +619,10 @@ impl World {
         }
         for &i in &order {
             let c = &self.conns[i];
-            if c.alive && c.hs_parked.is_some() {
+            // excess configuration: one excess connection is enough, and after the pooled connection of node 1 was lost no
+            // further handshake is let through (whether the driver has noticed the loss yet is not observable)
+            let frozen = self.cfg.excess && c.node == 1 && (self.conns.iter().any(|x| x.node == 1 && x.excess) || !self.conns.iter().any(|x| x.node == 1 && x.alive && x.pooled));
+            if c.alive && c.hs_parked.is_some() && !frozen {
                 v.push(format!("hs:{}", c.name()));
             }
             if c.alive && c.use_parked.is_some() {
@@ -741,8 +786,7 @@ impl World {
             }
             self.conns[i].acked = Some(k);
             if !self.conns[i].pooled && self.current.map(|c| self.cfg.ident(c)) == Some(self.cfg.ident(k)) {
-                self.conns[i].pooled = true;
-                self.conns[i].needs_sync = true;
+                self.finish_setup(i);
             }
         } else if let Some(name) = action.strip_prefix("drop:") {
             let i = self.conn_by_name(name);
@@ -1002,32 +1046,34 @@ fn main() {
             // error answers (nak): in the single-connection pools (and the sharded configuration of the thorough tier)
             // the largest configuration (pools of 2, two calls) goes without the joining node (covered by the other three)
             let adds = if pool == 2 && calls == 2 { 0 } else { 1 };
-            cfgs.push(Cfg { pool, calls, sharded: false, variant: 0, topo: 0, kills: 1, adds, naks: if pool == 1 { 1 } else { 0 }, drops: 0, zero_token: false, max_steps: 14 });
+            cfgs.push(Cfg { pool, calls, sharded: false, variant: 0, topo: 0, kills: 1, adds, naks: if pool == 1 { 1 } else { 0 }, drops: 0, zero_token: false, excess: false, max_steps: 14 });
         }
     }
     // the same name twice (first round may fail with error answers on some or all connections), and the same name
     // with the other case-sensitivity flag
-    cfgs.insert(1, Cfg { pool: 1, calls: 2, sharded: false, variant: 1, topo: 0, kills: 1, adds: 1, naks: 2, drops: 0, zero_token: false, max_steps: 14 });
-    cfgs.push(Cfg { pool: 1, calls: 2, sharded: false, variant: 2, topo: 0, kills: 1, adds: 1, naks: if thorough { 1 } else { 0 }, drops: 0, zero_token: false, max_steps: 14 });
+    cfgs.insert(1, Cfg { pool: 1, calls: 2, sharded: false, variant: 1, topo: 0, kills: 1, adds: 1, naks: 2, drops: 0, zero_token: false, excess: false, max_steps: 14 });
+    cfgs.push(Cfg { pool: 1, calls: 2, sharded: false, variant: 2, topo: 0, kills: 1, adds: 1, naks: if thorough { 1 } else { 0 }, drops: 0, zero_token: false, excess: false, max_steps: 14 });
     // mixed-case / lower-case twin keyspaces, set through raw `USE` statements and through the API
-    cfgs.insert(2, Cfg { pool: 1, calls: 2, sharded: false, variant: 3, topo: 0, kills: 1, adds: 1, naks: 0, drops: 0, zero_token: false, max_steps: 14 });
-    cfgs.push(Cfg { pool: 1, calls: 2, sharded: false, variant: 4, topo: 0, kills: 1, adds: 1, naks: 0, drops: 0, zero_token: false, max_steps: 14 });
+    cfgs.insert(2, Cfg { pool: 1, calls: 2, sharded: false, variant: 3, topo: 0, kills: 1, adds: 1, naks: 0, drops: 0, zero_token: false, excess: false, max_steps: 14 });
+    cfgs.push(Cfg { pool: 1, calls: 2, sharded: false, variant: 4, topo: 0, kills: 1, adds: 1, naks: 0, drops: 0, zero_token: false, excess: false, max_steps: 14 });
     // node histories: down at USE time and back later; accepted by the host filter later; re-created after a rack change
     for topo in [1u8, 2, 3] {
-        cfgs.push(Cfg { pool: 1, calls: 2, sharded: false, variant: 0, topo, kills: if thorough { 1 } else { 0 }, adds: 1, naks: 0, drops: 0, zero_token: false, max_steps: 14 });
+        cfgs.push(Cfg { pool: 1, calls: 2, sharded: false, variant: 0, topo, kills: if thorough { 1 } else { 0 }, adds: 1, naks: 0, drops: 0, zero_token: false, excess: false, max_steps: 14 });
     }
     // a coordinator-only (zero-token) node among the pools; a USE that is never answered on one of two pool connections
-    cfgs.push(Cfg { pool: 1, calls: 2, sharded: false, variant: 0, topo: 0, kills: 1, adds: 0, naks: 0, drops: 0, zero_token: true, max_steps: 14 });
-    cfgs.push(Cfg { pool: 2, calls: if thorough { 2 } else { 1 }, sharded: false, variant: 0, topo: 0, kills: 0, adds: 0, naks: 0, drops: 1, zero_token: false, max_steps: 14 });
+    cfgs.push(Cfg { pool: 1, calls: 2, sharded: false, variant: 0, topo: 0, kills: 1, adds: 0, naks: 0, drops: 0, zero_token: true, excess: false, max_steps: 14 });
+    cfgs.push(Cfg { pool: 2, calls: if thorough { 2 } else { 1 }, sharded: false, variant: 0, topo: 0, kills: 0, adds: 0, naks: 0, drops: 1, zero_token: false, excess: false, max_steps: 14 });
+    // an excess connection (same shard as the pooled one, no shard-aware port) next to the pool
+    cfgs.push(Cfg { pool: 1, calls: 2, sharded: true, variant: 0, topo: 0, kills: 1, adds: 0, naks: 0, drops: 0, zero_token: false, excess: true, max_steps: 14 });
     // per-shard pool on a 2-shard node (shard-aware port)
-    cfgs.push(Cfg { pool: 1, calls: 1, sharded: true, variant: 0, topo: 0, kills: 1, adds: 0, naks: 0, drops: 0, zero_token: false, max_steps: 14 });
+    cfgs.push(Cfg { pool: 1, calls: 1, sharded: true, variant: 0, topo: 0, kills: 1, adds: 0, naks: 0, drops: 0, zero_token: false, excess: false, max_steps: 14 });
     if thorough {
-        cfgs.push(Cfg { pool: 1, calls: 2, sharded: false, variant: 5, topo: 0, kills: 1, adds: 1, naks: 1, drops: 0, zero_token: false, max_steps: 14 });
-        cfgs.push(Cfg { pool: 1, calls: 2, sharded: false, variant: 6, topo: 0, kills: 1, adds: 1, naks: 1, drops: 0, zero_token: false, max_steps: 14 });
-        cfgs.push(Cfg { pool: 2, calls: 2, sharded: false, variant: 3, topo: 0, kills: 1, adds: 0, naks: 0, drops: 0, zero_token: false, max_steps: 14 });
-        cfgs.push(Cfg { pool: 2, calls: 2, sharded: false, variant: 1, topo: 0, kills: 1, adds: 0, naks: 2, drops: 0, zero_token: false, max_steps: 14 });
-        cfgs.push(Cfg { pool: 1, calls: 2, sharded: true, variant: 0, topo: 0, kills: 1, adds: 1, naks: 0, drops: 0, zero_token: false, max_steps: 14 });
-        cfgs.push(Cfg { pool: 1, calls: 2, sharded: false, variant: 0, topo: 0, kills: 2, adds: 1, naks: 0, drops: 0, zero_token: false, max_steps: 16 });
+        cfgs.push(Cfg { pool: 1, calls: 2, sharded: false, variant: 5, topo: 0, kills: 1, adds: 1, naks: 1, drops: 0, zero_token: false, excess: false, max_steps: 14 });
+        cfgs.push(Cfg { pool: 1, calls: 2, sharded: false, variant: 6, topo: 0, kills: 1, adds: 1, naks: 1, drops: 0, zero_token: false, excess: false, max_steps: 14 });
+        cfgs.push(Cfg { pool: 2, calls: 2, sharded: false, variant: 3, topo: 0, kills: 1, adds: 0, naks: 0, drops: 0, zero_token: false, excess: false, max_steps: 14 });
+        cfgs.push(Cfg { pool: 2, calls: 2, sharded: false, variant: 1, topo: 0, kills: 1, adds: 0, naks: 2, drops: 0, zero_token: false, excess: false, max_steps: 14 });
+        cfgs.push(Cfg { pool: 1, calls: 2, sharded: true, variant: 0, topo: 0, kills: 1, adds: 1, naks: 0, drops: 0, zero_token: false, excess: false, max_steps: 14 });
+        cfgs.push(Cfg { pool: 1, calls: 2, sharded: false, variant: 0, topo: 0, kills: 2, adds: 1, naks: 0, drops: 0, zero_token: false, excess: false, max_steps: 16 });
     }
     if let Some(only) = r.args.extra_value("--only-cfg").and_then(|s| s.parse::<usize>().ok()) {
         cfgs = vec![cfgs[only]];
@@ -1133,7 +1179,7 @@ fn main() {
         println!("cfg {} bound {} -> {} executions, longest {} choice points, {} violations", cfg.json(), bound, res.executions, res.max_points, res.violations.len());
       }
     };
-    let (lane_b, lane_a): (Vec<Cfg>, Vec<Cfg>) = cfgs.iter().partition(|c| c.topo != 0 || c.sharded || c.kills > 1 || c.variant >= 5 || c.drops > 0 || c.zero_token);
+    let (lane_b, lane_a): (Vec<Cfg>, Vec<Cfg>) = cfgs.iter().partition(|c| c.topo != 0 || c.sharded || c.kills > 1 || c.variant >= 5 || c.drops > 0 || c.zero_token || c.excess);
     let jobs = r.args.jobs.min(16);
     std::thread::scope(|s| {
         s.spawn(|| run_lane(&lane_b, if thorough { 10 } else { 6 }));
